@@ -68,7 +68,7 @@ Contents == { [a |-> [USD |-> 100], b |-> [USD |-> 100]],
 Sends60 == {x \in Sends : x.sent.asset.v = S /\ x.sent.amt.v = 60}
 SendsS  == {x \in Sends : x.sent.asset.v = S /\ x.sent.amt.v # 5}
 Seqs == IF Big THEN {<<s>> : s \in Stmts} \cup {<<s, t>> : s \in Stmts, t \in Stmts} \cup {<<s, t, u>> : s \in Sends60, t \in Stmts, u \in SendsS}
-        ELSE {<<s, t>> : s \in Stmts, t \in Sends \cup SendAlls} \cup {<<s, v, t>> : s \in Sends, v \in Saves, t \in Sends}
+        ELSE {<<s>> : s \in Stmts} \cup {<<s, t>> : s \in Stmts, t \in Sends \cup SendAlls} \cup {<<s, v, t>> : s \in Sends, v \in Saves, t \in Sends}
 
 VARIABLES phase, prog
 vars == <<phase, prog>>
